@@ -116,6 +116,9 @@ func c16Nest(src string, paths map[int]string, m Mode) (kind, detail string, inv
 // instead of next() (plugins that handle blocks do this); the context answers inside must be the same.
 var c16Direct bool
 
+// c16Subst: one lexeme per syntactic class, substituted for each token of each nested program.
+var c16Subst = []string{"a", "1", "(", ")", "{", "}", "[", "]", ";", ",", "=", "+", "++", ".", ":", "let", "function", "if", "else", "return", "while", "for"}
+
 // c16PushPop: the interceptors use the public PushContext / PopContext themselves, balanced, before asking.
 var c16PushPop bool
 
@@ -309,6 +312,27 @@ func c16Run(c *core.Ctx) {
 					c.Inc("final_state_inputs")
 					kd, d := c16Final(del, mi)
 					reportFinal(kd, d, strings.Fields(del), mi)
+				}
+			}
+		}
+		// and with one token replaced by each lexeme of a class alphabet (an early exit taken in the middle of a
+		// nesting, with well-formed text after it)
+		if k > 0 && len(toks) <= 40 {
+			for i := 0; i < len(toks); i++ {
+				for _, sub := range c16Subst {
+					if sub == toks[i].Text {
+						continue
+					}
+					rest := append([]gen.Tok{}, toks...)
+					rest[i].Text = sub
+					txt := gen.Render(rest, nil, nil)
+					c.Cur(txt)
+					for _, mi := range []int{0, 3} {
+						c.Inc("final_state_inputs")
+						c.Inc("final_state_substitutions")
+						kd, d := c16Final(txt, mi)
+						reportFinal(kd, d, strings.Fields(txt), mi)
+					}
 				}
 			}
 		}
